@@ -41,8 +41,12 @@ template <class D, int Dim> long long it_addr(gil::position_iterator<D, Dim> con
 template <class P> long long it_addr(P* p) { return (const unsigned char*)p - ORG; }
 template <class I> long long it_addr(gil::memory_based_step_iterator<I> const& it) { return it_addr(it.base()); }
 template <class C, class CS> long long it_addr(gil::planar_pixel_iterator<C, CS> const& it) { return it_addr(gil::at_c<0>(it)); }
+// a bit position is byte*8 + offset; an offset outside [0,8) (broken bit_range invariant) is made visible
+static long long bit_pos(unsigned char const* byte, int off) {
+    long long p = (long long)(byte - ORG) * 8 + off;
+    return (off < 0 || off > 7) ? p + 4000000000000000LL * (off < 0 ? -1 : 1) : p; }
 template <class R> long long it_addr(gil::bit_aligned_pixel_iterator<R> const& it) {
-    return (long long)(it.bit_range().current_byte() - ORG) * 8 + it.bit_range().bit_offset(); }
+    return bit_pos(it.bit_range().current_byte(), it.bit_range().bit_offset()); }
 template <class D, int Dim> long long it_addr(gil::position_iterator<D, Dim> const& it) { return (long long)it.pos().y * 4096 + it.pos().x; }
 
 // ---------------------------------------------------------------- addresses of references
@@ -50,7 +54,7 @@ template <class T, class L> long long ref_mem(gil::pixel<T, L> const& r) { retur
 template <class CR, class CS> long long ref_mem(gil::planar_pixel_reference<CR, CS> const& r) { return (const unsigned char*)&gil::at_c<0>(r) - ORG; }
 template <class B, class C, class L> long long ref_mem(gil::packed_pixel<B, C, L> const& r) { return (const unsigned char*)&r - ORG; }
 template <class B, class C, class L, bool M> long long ref_mem(gil::bit_aligned_pixel_reference<B, C, L, M> const& r) {
-    return (long long)(r.bit_range().current_byte() - ORG) * 8 + r.bit_range().bit_offset(); }
+    return bit_pos(r.bit_range().current_byte(), r.bit_range().bit_offset()); }
 template <bool Virt> struct RA { template <class R> static long long get(R const& r) { return ref_mem(r); } };
 template <> struct RA<true> { template <class R> static long long get(R const& r) { return (long long)gil::at_c<0>(r); } };
 
